@@ -1071,7 +1071,8 @@ func (l *LineWrapper) wrapNextLine(config lineConfig) (done bool) {
 		if !ok {
 			break
 		}
-		switch result, candidateRun := l.processBreakOption(option, config); result {
+		result, candidateRun := l.processBreakOption(option, config)
+		switch result {
 		case breakInvalid:
 			l.restore()
 			l.breaker.markWordOptionInvalid()
@@ -1158,6 +1159,13 @@ func (l *LineWrapper) wrapNextLine(config lineConfig) (done bool) {
 				l.breaker.markWordOptionUnused()
 				return false
 			}
+		}
+		if result == cannotFit && !config.truncating && !l.scratch.hasBest() {
+			// No grapheme boundary inside the word is usable (they all fall inside
+			// glyph clusters): keep the whole word even if it overflows, so that
+			// the line contains something.
+			_, candidateRun = l.processBreakOption(option, config)
+			l.scratch.markCandidateBest(candidateRun)
 		}
 		return false
 	}
